@@ -2,7 +2,7 @@
 C01 — The evaluation result is independent of declaration and conjunct order.
 
 The reference semantics "CueCore" (Model/Core.lean: scalars, structs with regular /
-required / optional arcs, close(), `&`, embeddings) has the algebraic laws that make the
+required / optional arcs, close(), closed lists, `&`, embeddings) has the algebraic laws that make the
 result of evaluation independent of every rearrangement the property talks about.
 The harness compares this semantics with the implementation on generated programs and
 their rearrangements.
@@ -30,6 +30,10 @@ def exE : Expr :=
                   .embed (.structL [.field 0 .regular (.lit (.rng none (some 1)))])])
        (.close (.structL [.field 0 .regular .top]))
 
+/-- `[int, {a: 1, c?: int}]` and `[>=0 & <=5, close({…})]` -/
+def exL1 : Val := .list (.cons (.sc .tInt) (.cons exA .nil))
+def exL2 : Val := .list (.cons (.sc (.rng (some 0) (some 5))) (.cons exB .nil))
+
 /-! ### the algebra of unification -/
 
 /-- Conjunct order: unification is commutative — for ALL values, normal form or not. -/
@@ -37,6 +41,8 @@ theorem C01_comm (a b : Val) : unify a b = unify b a :=
   unify_comm a b
 
 example : unify exA exB = exAB ∧ unify exB exA = exAB := by decide
+example : unify exL1 exL2 = .list (.cons (.sc (.rng (some 0) (some 5))) (.cons exAB .nil)) ∧
+    unify exL2 exL1 = unify exL1 exL2 := by decide
 
 /-- Conjunct grouping: unification is associative — for ALL values. -/
 theorem C01_assoc (a b c : Val) : unify (unify a b) c = unify a (unify b c) :=
@@ -51,7 +57,7 @@ example : unify (unify exA exB) (.struct (.cons .none (.cons .none
 theorem C01_idem (a : Val) (h : a.WF) : unify a a = a :=
   unify_idem a h
 
-example : exAB.WF := by decide
+example : exAB.WF ∧ exL1.WF ∧ exL2.WF := by decide
 
 /-- … and every evaluation result is a normal form, so no hypothesis is needed there. -/
 theorem C01_idem_eval (e : Expr) : unify (eval e) (eval e) = eval e :=
@@ -148,6 +154,15 @@ example : Rearr
   .trans
     (.embed_congr [] [.embed .top] (.field_congr [] [] 0 .regular (.and_comm _ _)))
     (.perm (List.Perm.swap _ _ _))
+
+/-- … and inside a list element -/
+example : Rearr (.listL [.lit .tStr, .and (.lit .tInt) (.lit (.int 1))])
+    (.listL [.lit .tStr, .structL [.embed (.and (.lit (.int 1)) (.lit .tInt))]]) :=
+  .list_congr [.lit .tStr] [] (.trans (.and_comm _ _) (.embed _))
+
+/-- test: lists of different length do not unify; a bottom element makes the list bottom -/
+example : eval (.and (.listL [.lit .tInt]) (.listL [.lit .tInt, .lit .tInt])) = .bot ∧
+    eval (.listL [.lit (.int 1), .and (.lit (.int 1)) (.lit (.int 2))]) = .bot := by decide
 
 /-- test: the sample expression evaluates to the closed struct `{a: 1}` -/
 example : eval exE = .struct (.cons (.some .regular (.sc (.int 1))) .nil) true := by decide
